@@ -2,6 +2,7 @@ package sql
 
 import (
 	"fmt"
+	"strings"
 
 	an "github.com/benoitkugler/gomacro/analysis"
 	gen "github.com/benoitkugler/gomacro/generator"
@@ -883,6 +884,12 @@ func Check() {
 }
 `
 
+// c04Tier adapts the bounds of the checking file to the tier (recursion depth of the nested value, string lengths).
+func c04Tier(check string) string {
+	check = strings.ReplaceAll(check, "mkInner(\"in\", 2)", fmt.Sprintf("mkInner(\"in\", %d)", vfParam("C04.depth", 2)))
+	return strings.ReplaceAll(check, ", 0, 2, \"alnum\")", fmt.Sprintf(", 0, %d, \"alnum\")", vfParam("C04.strlen", 2)))
+}
+
 // HC04_exec: the CHECK of a jsonb column admits what Go emits and rejects foreign shapes (evaluated).
 func HC04_exec() {
 	pkg := vfTypeCheck("example.com/mod/p", []string{"/m/p/p.go"}, []string{c04Decls}, nil)
@@ -899,7 +906,7 @@ func HC04_exec() {
 	}
 	text := "package p\n\nconst sqlText = " + fmt.Sprintf("%q", sqlText) + "\n"
 	errs := vfExec("example.com/mod/p", []string{"/m/p/p.go", "/m/p/gen.go", "/m/p/sql.go", "/m/p/eval.go", "/m/p/check.go"},
-		[]string{c04Decls, goText, text, c04Evaluator, c04Check}, nil, "Check")
+		[]string{c04Decls, goText, text, c04Evaluator, c04Tier(c04Check)}, nil, "Check")
 	if len(errs) > 0 {
 		vfObserve("error", errs[0])
 	}
